@@ -259,10 +259,16 @@ func VerifC03Loader() {
 		rdb = append(rdb, RdbFlagSelectDB, byte(db))
 	}
 	var expire uint64
-	if verifChoose("expire", 2) == 1 {
+	switch verifChoose("expire", 3) {
+	case 1: // EXPIRETIME_MS: 8 bytes, unix milliseconds
 		eb := verifBytes("exp", 8)
 		expire = binary.LittleEndian.Uint64(eb)
 		rdb = append(append(rdb, RdbFlagExpiryMS), eb...)
+	case 2: // EXPIRETIME: 4 bytes, unix seconds (RDB written before Redis 2.6 or by other tools)
+		eb := verifBytes("exps", 4)
+		expire = uint64(binary.LittleEndian.Uint32(eb)) * 1000
+		rdb = append(append(rdb, RdbFlagExpiry), eb...)
+		verifCover(true, "c03.loader.expiry-in-seconds")
 	}
 	rdb = append(rdb, o.rtype)
 	rdb = append(rdb, verifRawStr(key)...)
